@@ -71,7 +71,7 @@ extern int mpt_convert_string(const char *from, MPT_TYPE(type) type, void *dest)
 		while (isspace(*txt)) {
 			++txt;
 		}
-		if ((len = mpt_convert_number(txt, type, dest)) < 0) {
+		if ((len = mpt_convert_number(txt, type, dest)) <= 0) {
 			return len;
 		}
 		txt += len;
